@@ -13,6 +13,7 @@ RULE = (
     "LightNodeMixin classes; generated: Hypothesis histories (<= 7 nodes, <= 25 calls, random initial forests). Non-trivial = a call with "
     ">= 4 hook invocations, or a *_children wrapper around >= 2 per-child changes. Enumerated distinct by construction; histories hashed."
     ' Also: interrupt-like BaseExceptions at every hook position; classes that got their hooks after they were already in use (assigned to the class / one callable per instance); *_children hooks that re-file a child.'
+    ' Also: del n.children detaches from n only, whatever editing hooks did.'
 )
 ASSUMPTIONS = [
     "layer 1 (successful calls, refused calls and parent assignments aborted by a hook): the complete hook log equals the closed-form log derived from the protocol statement",
